@@ -77,7 +77,14 @@ func scriptCmd(r *rand.Rand, g *genCfg) Cmd {
 	id := pick(r, g.freeIDs)
 	lat, lon := g.lat(r), g.lon(r)
 	ev := []string{"EVAL", "EVALNA"}[r.Intn(2)]
-	switch r.Intn(3) {
+	switch r.Intn(5) {
+	case 3:
+		// a deadline set and taken away again inside one atomic script: both are writes
+		return Cmd{Args: []string{"EVAL", "tile38.call('SET', KEYS[1], ARGV[1], 'EX', '1000', 'POINT', ARGV[2], ARGV[3]); return tile38.call('PERSIST', KEYS[1], ARGV[1])", "1", key, id, lat, lon},
+			Inner: [][]string{{"SET", key, id, "EX", "1000", "POINT", lat, lon}, {"PERSIST", key, id}}}
+	case 4:
+		return Cmd{Args: []string{"EVAL", "tile38.call('SET', KEYS[1], ARGV[1], 'POINT', ARGV[2], ARGV[3]); return tile38.call('EXPIRE', KEYS[1], ARGV[1], '1000')", "1", key, id, lat, lon},
+			Inner: [][]string{{"SET", key, id, "POINT", lat, lon}, {"EXPIRE", key, id, "1000"}}}
 	case 0:
 		return Cmd{Args: []string{ev, "return tile38.call('SET', KEYS[1], ARGV[1], 'POINT', ARGV[2], ARGV[3])", "1", key, id, lat, lon},
 			Inner: [][]string{{"SET", key, id, "POINT", lat, lon}}}
